@@ -943,3 +943,16 @@ Lemma jac_column_algebra (xmat : mat3 R) (ja : janchor R) (com point : vec3 R) :
 Proof.
   split; [apply jac_hinge | split; [apply jac_slide | split; [apply jac_ball | intros; apply jacColJoint_eq; assumption]]].
 Qed.
+
+(* the subtree_com used for the point offset must be the one used in cdof (the tree root's): with another one the hinge
+   column is off by xaxis x (com_cdof - com_offset); this is what distinguishes mj_jac / mj_jacSparse / mj_jacSparseSimple,
+   which all take subtree_com[body_rootid[body]], from a variant reading the com of the body itself *)
+Lemma jac_hinge_com_mismatch (xmat : mat3 R) (ja : janchor R) (com com' point : vec3 R) :
+  map (fun c : mvec R => jacCol c (sub3 point com')) (jointCdof JHinge xmat ja com) =
+    ((add3 (cross (snd ja) (sub3 point (fst ja))) (cross (snd ja) (sub3 com com')), snd ja) :: nil).
+Proof.
+  destruct ja as [xanchor xaxis]. unfold jointCdof.
+  destruct xmat as [[[[[[[[m0 m1] m2] m3] m4] m5] m6] m7] m8].
+  cbn [map dofCom fst snd]. unfold jacCol. cbn [fst snd]. f_equal. f_equal.
+  dv xaxis; dv xanchor; dv com; dv com'; dv point. unfold add3, cross, sub3. nR. apply vec_ext; ring.
+Qed.
